@@ -745,8 +745,18 @@ impl<S: Sample> RenderedImage<S> {
         }
 
         *grid_lock = FrameRender::Rendering;
+        #[cfg(jxl_oxide_verif)]
+        crate::verif::emit(crate::verif::Event::StateStore {
+            frame: self.image.frame.idx,
+            tag: "Rendering",
+        });
         drop(grid_lock);
 
+        #[cfg(jxl_oxide_verif)]
+        crate::verif::emit(crate::verif::Event::RenderBegin {
+            frame: self.image.frame.idx,
+            kind: "composite",
+        });
         composite(
             &self.image.frame,
             &mut grid,
@@ -764,6 +774,12 @@ impl<S: Sample> RenderedImage<S> {
     }
 
     pub(crate) fn try_take_blended(&self) -> Option<ImageWithRegion> {
+        #[cfg(jxl_oxide_verif)]
+        crate::verif::emit(crate::verif::Event::BeforeLock {
+            frame: self.image.frame.idx,
+            site: "try_take_blended",
+            probe: &|| self.image.render.try_lock().is_ok(),
+        });
         let mut grid_lock = self.image.render.lock().unwrap();
         match std::mem::take(&mut *grid_lock) {
             FrameRender::Blended(image) => {
